@@ -1,9 +1,10 @@
-"""C03 — no input can crash, wedge or exhaust a parser (claimed: WebSocket frame decoder and Base64 decoder)."""
+"""C03 — no input can crash, wedge or exhaust a parser (claimed: WebSocket frame decoder, Base64 decoder, HTTP request parser, JSON parser)."""
 from ..kengine import H
 
 ID = "C03"
 MODULE = "c03"
-ENGINE = "K"
+ENGINE = "KM"
+TECHNIQUE = "frame and Base64 decoders: Kani/CBMC bounded model checking of the compiled code on fully symbolic byte strings; HTTP request parser and JSON parser: symbolic execution of their MIR on malformed-input templates / all short strings -> z3, every panic or over-sized allocation replayed natively (catch_unwind, tracking allocator)"
 
 FROM_ELEM = "kani::stub(alloc::vec::from_elem, crate::c03::stub_from_elem)"
 
@@ -16,8 +17,9 @@ META = {
     "stubs": ["alloc::vec::from_elem -> recorder of the requested size (allocation-bound harnesses only; natively a tracking global allocator observes the same quantity)"],
     "assumes": ["Base64 input is a valid &str (ASCII or one 2-byte character)"],
     "outside_bounds": [
-        "HTTP request and response parsers: not encodable (DESIGN §2) — NOT decided",
-        "JSON parser: decided by C13's encoding if built, otherwise not decided; configuration parser: only the size-suffix kernel (see C15)",
+        "HTTP request parser: decided on engine M for the malformed-request templates listed under `request_parser` (arbitrary ASCII garbage of 1..4 bytes at the start line, in a header line, after a complete header; multi-byte UTF-8 at the slicing positions; invalid UTF-8; Content-Length claims) — longer garbage, the tokio twin and read segmentation are not covered",
+        "HTTP response parser: NOT decided (same construction would apply; not built)",
+        "JSON parser: `no panic` for every Unicode string of 0..4 characters (engine M, same encoding as C13); configuration parser: only the size-suffix kernel (see C15)",
         "WebSocket message assembly (Message::from_stream): CBMC out of memory (see C11)",
         "stack overflow and wall-clock time: termination within the unwinding bound is what is shown; inputs longer than 16 bytes (frames) / 9 symbols (Base64)",
     ],
@@ -44,3 +46,130 @@ def harnesses():
     for h in hs:
         h.module = MODULE
     return hs
+
+
+def run(tier, run_k):
+    import json, os, time
+    from ..common import WORK, REPLAY_DIR, log, write_evidence, load_known
+    from .. import mengine
+    from . import c03_req, c13
+    k = run_k()
+    t0, rc, cov, assumptions, nviol = k["t0"], k["rc"], k["cov"], k["assumptions"], k["violations"]
+    known = load_known()
+    from mirsym.dump import dump_mir
+    work = os.path.join(WORK, ID)
+    # ---- HTTP request parser
+    try:
+        mir, dt = dump_mir("humphrey", work, features="verif")
+        d = c03_req.run_part(tier, work, mir)
+    except Exception as e:
+        log("UNDISCHARGED: request parser — %s" % str(e)[:500])
+        d = {"results": [], "violations": [], "known_hits": [], "machinery": [], "undischarged": [{"template": "all", "why": str(e)[:300]}], "validation": {}}
+    os.makedirs(REPLAY_DIR, exist_ok=True)
+    for i, r in enumerate(d["violations"][:3]):
+        path = os.path.join(REPLAY_DIR, "C03-request-%d.json" % i)
+        with open(path, "w") as f:
+            json.dump({"property": ID, "engine": "M", "kind": "request", "replay": r["replay"], "how": "./check C03 --replay " + path}, f, indent=1)
+        log("VIOLATION property=%s replay=%s" % (ID, path))
+        rp = r["replay"]
+        log("   request %r: %s — natively dev: %s / release: %s" % (rp["text"][:120], rp["failed"][:120], rp["native_dev"][:80], rp["native_release"][:80]))
+        rc = 1
+        nviol += 1
+    for rp in d["known_hits"]:
+        log("KNOWN-FINDING: property=%s key=%s %s [request %r: dev %s / release %s]" % (ID, rp["key"], known[(ID, rp["key"])], rp["text"][:80], rp["native_dev"][:60], rp["native_release"][:60]))
+    for m in d["machinery"]:
+        log("MACHINERY-ERROR: request parser — " + m[:600])
+        rc = rc or 2
+    for r in d["undischarged"][:6]:
+        log("UNDISCHARGED: request parser template %s — %s" % (r.get("template"), r.get("why")))
+    ok = [r for r in d["results"] if r["verdict"] == "unsat"]
+    log("   request parser (engine M): %d/%d malformed-request templates free of panics and over-sized allocations, %d paths, translator validation on %s requests (%s native panics among them)" % (
+        len(ok), len(d["results"]), sum(r.get("paths", 0) for r in d["results"]), d["validation"].get("inputs"), d["validation"].get("native_panics_seen")))
+    # ---- JSON parser: no panic (C13's encoding)
+    jres, jviol, jund = [], [], []
+    try:
+        jm, dt = dump_mir("humphrey-json", work)
+        c13._G.update({"mir": jm, "budget": 600, "classify": c13.classify, "region": c13.region})
+        jobs = [(n, None, None) for n in (0, 1, 2, 3)] + [(4, kk, None) for kk in range(c13.N_CLASSES)]
+        if tier == "thorough":
+            jobs += [(5, kk, None) for kk in range(c13.N_CLASSES)]
+        jres = mengine.pmap(c13._obligation, jobs)
+        exe = mengine.build_mtool("debug")
+        exe_rel = mengine.build_mtool("release")
+        for r in jres:
+            if r.get("verdict") == "undischarged":
+                jund.append({"job": [r["n"], r["cls"]], "why": r.get("why")})
+            for cx in r.get("cexs", []):
+                if cx["check"] != "no panic":
+                    continue
+                text = "".join(chr(x) for x in cx["chars"])
+                nd, nr = c13.native(exe, text), c13.native(exe_rel, text)
+                if nd == "PANIC" or nr == "PANIC":
+                    jviol.append({"text": text, "native_dev": nd, "native_release": nr})
+        if jund and not jviol:
+            # native probe (sampling): boundary documents through the real parser, panics only
+            for text in list(c13.REPO_TEST_DOCS) + ["-", "[-]", "[1,-]", "{\"a\":-}", "+", ".", "e", "-e", "\"\\", "\"\\u", "\"\\u12", "[", "{", "{\"", "tru", "nul", "\u00e9", "[\u00e9", "-\u00e9"]:
+                nd = c13.native(exe, text)
+                if nd == "PANIC":
+                    jviol.append({"text": text, "native_dev": nd, "native_release": c13.native(exe_rel, text), "probe": True})
+                    break
+    except Exception as e:
+        jund.append({"job": "all", "why": str(e)[:300]})
+    for v in jviol[:1]:
+        path = os.path.join(REPLAY_DIR, "C03-json.json")
+        with open(path, "w") as f:
+            json.dump({"property": ID, "engine": "M", "kind": "json", "text": v["text"], "native_dev": v["native_dev"], "native_release": v["native_release"], "how": "./check C03 --replay " + path}, f, indent=1)
+        log("VIOLATION property=%s replay=%s" % (ID, path))
+        log("   Value::parse(%r) panics natively (dev: %s / release: %s)%s" % (v["text"], v["native_dev"], v["native_release"], " [native probe]" if v.get("probe") else ""))
+        rc = 1
+        nviol += 1
+    for u in jund[:4]:
+        log("UNDISCHARGED: JSON parser no-panic %s — %s" % (u.get("job"), u.get("why")))
+    jok = [r for r in jres if r.get("verdict") in ("unsat", "sat") and not any(c["check"] == "no panic" for c in r.get("cexs", []))]
+    log("   JSON parser (engine M): no panic on every Unicode string of 0..%d characters: %d/%d length/class obligations" % (5 if tier == "thorough" else 4, len(jok), len(jres)))
+    nres = len(d["results"]) + len(jres)
+    cov["evaluations"] += nres
+    cov["distinct_nontrivial"] += len(ok) + len(jok)
+    cov["obligations"] = cov.get("obligations", 0) + nres
+    cov["discharged"] = cov.get("discharged", 0) + len(ok) + len(jok)
+    cov["states"] = cov.get("states", 0) + sum(r.get("blocks", 0) for r in d["results"]) + sum(r.get("blocks", 0) for r in jres)
+    cov["transitions"] = cov.get("transitions", 0) + sum(r.get("n_checks", 0) for r in d["results"]) + sum(r.get("feasibility_queries", 0) for r in jres)
+    cov["traces_validated_against_impl"] = cov.get("traces_validated_against_impl", 0) + (d["validation"].get("inputs") or 0)
+    cov["solver_time_s"] = round(cov.get("solver_time_s", 0) + sum(r.get("solver_s", 0) for r in d["results"]) + sum(r.get("solver_s", 0) for r in jres), 2)
+    cov["request_parser"] = {
+        "functions_encoded": ["humphrey/src/http/request.rs: Request::{from_stream, from_stream_inner}, safe_assert, to_error; method.rs Method::from_name; headers.rs HeaderType::from, Headers::{new, add, get} (MIR of the current tree)"],
+        "templates": {r["template"]: {k2: r.get(k2) for k2 in ("verdict", "paths", "n_checks", "wall_s", "why")} for r in d["results"]},
+        "obligation": "on every path: a value or an error — no MIR assert/unwrap/slice-index panic — and every vec![0; n] at most 64 KiB + 16 x the bytes supplied; the paths cover every value of the holes",
+        "bounds": "holes are arbitrary ASCII bytes (0..127): 1..4 (thorough 5) at the start line, 1..3 (4) in a header line, after a complete header, after the method / target; concrete 2-, 3-, 4-byte UTF-8 characters at the slicing positions with symbolic neighbours; invalid UTF-8; Content-Length with 1, 2, 6 (12) symbolic characters and huge concrete values; end of stream after the template",
+        "translator_validation": d["validation"],
+        "known_findings_seen": d["known_hits"],
+        "violations": [r["replay"] for r in d["violations"]][:3],
+        "undischarged": d["undischarged"][:10],
+    }
+    cov["json_no_panic"] = {"function_encoded": "humphrey-json/src/parser.rs: Value::parse and everything it calls (C13's encoding)", "lengths": "0..%d characters over all of Unicode" % (5 if tier == "thorough" else 4),
+                            "obligations": len(jres), "without_panic": len(jok), "undischarged": jund[:5], "violations": jviol[:3]}
+    cov["functions_encoded"] = list(cov.get("functions_encoded", [])) + cov["request_parser"]["functions_encoded"] + [cov["json_no_panic"]["function_encoded"]]
+    cov.setdefault("engines", {})["mirsym"] = "own MIR symbolic executor (/verif/mirsym) + z3 5.1.0"
+    cov["known_findings_seen"] = list(cov.get("known_findings_seen", [])) + [{"key": h["key"], "input": h["text"][:80]} for h in d["known_hits"]]
+    assumptions = assumptions + ["request parser: BufReader/read_until/read_exact model over the scripted bytes, allocation accounting in the vec![x; n] model (sizes above the remaining script are represented by one buffer), symbolic bytes are ASCII; validated per run against the native parser on concrete malformed requests"]
+    write_evidence(ID, tier, cov, assumptions, time.time() - t0, nviol)
+    log("== %s: %d/%d obligations discharged (K frame/Base64 + M request parser + M JSON no-panic), %d violation(s), %d known finding(s); %.0fs wall" % (ID, cov["discharged"], cov["obligations"], nviol, len(d["known_hits"]), time.time() - t0))
+    return rc
+
+
+def replay(d, path):
+    from .. import mengine, kengine
+    from ..common import log
+    from . import c03_req, c13
+    mengine.setup(ID)
+    kengine.write_lists({})
+    if d.get("kind") == "json":
+        exe = mengine.build_mtool("debug")
+        exe_rel = mengine.build_mtool("release")
+        nd, nr = c13.native(exe, d["text"]), c13.native(exe_rel, d["text"])
+        log("Value::parse(%r) -> dev %s / release %s" % (d["text"], nd, nr))
+        if nd == "PANIC" or nr == "PANIC":
+            log("VIOLATION property=%s replay=%s" % (ID, path))
+            return 1
+        return 0
+    return c03_req.replay(d, path)
